@@ -1,6 +1,7 @@
 '''C16 -- single-table export/import round trips reproduce the Frame.'''
 import ast
 import io
+import keyword
 import re
 import itertools
 import os
@@ -23,7 +24,8 @@ MANIFEST = {
              'C16_delimited_roundtrip (refinement M = S: for every delimiter, index depth, columns depth, include_index/include_columns setting and both store filters the '
              'modelled pipeline -- Frame._to_str_records layout, header rows, index columns, Index construction included -- returns the same labels, values and dtype kinds '
              'for every Frame of the decidable domain dom); C16_store_filter_markers (the StoreFilter default constants regenerated from store_filter.py decode what they encode); '
-             'C16_pairs0/pairs1/records_roundtrip (to_pairs / rows and from_items / from_records_items / from_records are inverse), C16_pickle_roundtrip. '
+             'C16_pairs0/pairs1/records_roundtrip (to_pairs / rows and from_items / from_records_items / from_records are inverse), C16_pickle_roundtrip; '
+             'C16_markers_decode (for ANY well-formed StoreFilter the NaN/None/inf markers decode from their own text and are good object cells) with C16_default_filter_wf on the regenerated defaults. '
              'Correspondence through the public interface only: Frame.to_csv/to_tsv/to_delimited -> from_csv/from_tsv/from_delimited on exhaustive one-cell sweeps over the alphabet '
              '{a,1,space,comma,quote,TAB,-,|} in five positions x three delimiters plus random Frames (bool/int/float/str/object columns, str/int labels, index depth 1-3, columns depth 1-2, '
              'all block layouts, include_index/include_columns, both store filters), each evaluated inside Coq against M (exact prediction, bugs included), S (the same Frame) and dom '
@@ -32,8 +34,12 @@ MANIFEST = {
              'Python int()/float()/f\'{x}\' on the modelled alphabet -- each validated on every run by an exhaustive small sweep against the real thing (a mismatch is a MACHINERY-ERROR); '
              'pickle (arrays come back writeable with the same content); Index/IndexHierarchy construction reduced to uniqueness + tree-form. '
              'Partial: floats are covered by the per-cell guard cell_ok (text parses back to the value; evaluated for every generated float) rather than a general theorem; floats in '
-             'exponent notation are checked against S only; names (frame / index / columns) are compared only for pickle/deepcopy; zero-row Frames, encodings, quoting options other than '
-             'the defaults, skip_header/skip_footer, index_column_first, dtypes= are not covered. Seven known findings (known/C16.jsonl), five of them with a Refuted/C16.v witness; two more (unpickled Index._positions writeable, Frame.items() on hierarchical columns) were repaired in /repo (72854e7, 52e7271) and their inputs stay as regression cases.'),
+             'exponent notation, StoreFilter value_format_* float formats, dtypes= and zero-row tables are checked against S only. Covered options: StringIO and file path, '
+             'include_index / include_columns, include_index_name / include_columns_name with index_name_depth_level=0 / columns_name_depth_level=0 (names compared), consolidate_blocks, '
+             'store_filter default / STORE_FILTER_DISABLE / None / a custom one with other NaN and None markers. Not covered: list-valued *_name_depth_level, skip_header / skip_footer, '
+             'index_column_first, quoting options other than the defaults (fail closed in generate()), encodings, datetime / complex / bytes cells (outside the property\'s quantifier), '
+             'from_structured_array, from_json, clipboard, Series other than to_pairs / pickle / deepcopy of one column. Nine known findings (known/C16.jsonl), five of them with a '
+             'Refuted/C16.v witness; two more (unpickled Index._positions writeable, Frame.items() on hierarchical columns) were repaired in /repo (72854e7, 52e7271) and stay as regression cases.'),
     'technique': 'refinement proof (Coq) of an executable model of the export/import pipeline + differential runs through the public interface evaluated inside Coq (vm_compute) + regenerated constants',
 }
 PROPERTY_FILES = ['Properties/C16.v']
@@ -205,6 +211,18 @@ def generate(repo):
     else:
         raise GenError('from_delimited: the csv.reader / delimiter_native branch has an unexpected shape')
     lines.append(f'Definition sf_reader_bypass_native : bool := {"true" if bypass else "false"}.')
+    # which branch of the column-label construction passes the labels through the StoreFilter
+    branch = [n for n in ast.walk(fd) if isinstance(n, ast.If) and ast.unparse(n.test) == 'columns_depth == 1' and 'columns_constructor' in ast.unparse(n)]
+    _expect(len(branch) == 1 and branch[0].orelse, 'from_delimited: the `if columns_depth == 1:` column construction has an unexpected shape')
+    flat_src, hier_src = ast.unparse(branch[0].body), ast.unparse(branch[0].orelse)
+    for src_, what in ((flat_src, 'flat'), (hier_src, 'hierarchical')):
+        _expect('columns_arrays' in src_ and 'columns_constructor(' in src_, f'from_delimited: {what} column construction changed')
+    filtered = lambda src_: 'store_filter.to_type_filter_iterable(x) for x in columns_arrays' in src_ or 'store_filter.to_type_filter_iterable(columns_arrays[0])' in src_
+    for src_, what in ((flat_src, 'flat'), (hier_src, 'hierarchical')):
+        _expect(filtered(src_) or 'store_filter' not in src_, f'from_delimited: {what} column labels use the store filter in an unexpected way')
+    lines.append('(* Frame.from_delimited: are the column labels decoded by the StoreFilter -- flat columns / hierarchical columns *)')
+    lines.append(f'Definition sf_flat_columns_filtered : bool := {"true" if filtered(flat_src) else "false"}.')
+    lines.append(f'Definition sf_hier_columns_filtered : bool := {"true" if filtered(hier_src) else "false"}.')
     gcalls = [n for n in ast.walk(fd) if isinstance(n, ast.Call) and ast.unparse(n.func) == 'np.genfromtxt']
     _expect(len(gcalls) == 2, 'from_delimited: expected two np.genfromtxt calls (body, header rows)')
     for g in gcalls:
@@ -270,9 +288,39 @@ def _tframe(o):
     return f'(mk_tframe {idx} {cols} {data})'
 
 
+# the custom StoreFilter of the 'custom' configuration: other markers for NaN and None, the default ones for +-inf
+CUSTOM_FILTER = {'from_nan': 'NA', 'to_nan': ('NA', 'n/a'), 'from_none': 'NULL', 'to_none': ('NULL',),
+                 'from_posinf': 'inf', 'to_posinf': ('inf',), 'from_neginf': '-inf', 'to_neginf': ('-inf',)}
+
+
+def _filter_lit(flt):
+    if flt is True:
+        return 'filter_default'
+    if flt in (False, 'none'):         # store_filter=None writes f'{x}' and decodes nothing: the same functions as STORE_FILTER_DISABLE
+        return 'filter_disable'
+    c = CUSTOM_FILTER
+    sl = lambda xs: lit.lst([_s(x) for x in xs])
+    return (f'(mk_sfilter (Some {_s(c["from_nan"])}) (Some {_s(c["from_none"])}) (Some {_s(c["from_posinf"])}) (Some {_s(c["from_neginf"])}) '
+            f'{sl(c["to_nan"])} {sl(c["to_none"])} {sl(c["to_posinf"])} {sl(c["to_neginf"])})')
+
+
+def _filter_obj(flt):
+    import static_frame as sf
+    from static_frame.core.store_filter import STORE_FILTER_DEFAULT, STORE_FILTER_DISABLE
+    if flt is True:
+        return STORE_FILTER_DEFAULT
+    if flt is False:
+        return STORE_FILTER_DISABLE
+    if flt == 'none':
+        return None
+    c = CUSTOM_FILTER
+    return sf.StoreFilter(from_nan=c['from_nan'], to_nan=frozenset(c['to_nan']), from_none=c['from_none'], to_none=frozenset(c['to_none']),
+                          from_posinf=c['from_posinf'], to_posinf=frozenset(c['to_posinf']), from_neginf=c['from_neginf'], to_neginf=frozenset(c['to_neginf']))
+
+
 def _cfg(c):
     return (f'(mk_cfg {_ch(c["delim"])} {lit.b(c["inc_index"])} {lit.b(c["inc_columns"])} '
-            f'{"filter_default" if c["filter"] else "filter_disable"} {c["di"]} {c["dc"]} {lit.lst([_tx(a) for a in c["apex"]])})')
+            f'{_filter_lit(c["filter"])} {c["di"]} {c["dc"]} {lit.lst([_tx(a) for a in c["apex"]])})')
 
 
 def _jsonable(v):
@@ -351,35 +399,63 @@ def build(spec, layout=None):
     arrays = [_array(k, vs) for k, vs in spec['cols']]
     if layout is None:
         layout = tuple((1, False) for _ in arrays)
+    import static_frame as sf
     return zoo.frame_from_columns(arrays, layout,
                                   index=_index(spec['index'], spec['di'], spec.get('index_name')),
-                                  columns=_index(spec['columns'], spec['dc']))
+                                  columns=_index(spec['columns'], spec['dc'], spec.get('columns_name')),
+                                  cls=getattr(sf, spec.get('cls', 'Frame')))
 
 
 def _io_roundtrip(frame, cfg):
+    """cfg['via']: 'buffer' (io.StringIO) or 'path' (a file in a temporary directory, removed afterwards);
+    cfg['names']: None | 'index' (index names in the apex, read back with index_name_depth_level=0) |
+                  'columns' (include_columns_name, read back with columns_name_depth_level=0) | 'blank' (include_index_name=False)."""
+    import shutil
+    import tempfile
     import static_frame as sf
-    from static_frame.core.store_filter import STORE_FILTER_DEFAULT, STORE_FILTER_DISABLE
-    flt = STORE_FILTER_DEFAULT if cfg['filter'] else STORE_FILTER_DISABLE
+    flt = _filter_obj(cfg['filter'])
     d = cfg['delim']
-    buf = io.StringIO()
+    names = cfg.get('names')
     wkw = dict(include_index=cfg['inc_index'], include_columns=cfg['inc_columns'], store_filter=flt)
     rkw = dict(index_depth=cfg['di'] if cfg['inc_index'] else 0, columns_depth=cfg['dc'] if cfg['inc_columns'] else 0, store_filter=flt)
-    if d == ',':
-        frame.to_csv(buf, **wkw)
-    elif d == '\t':
-        frame.to_tsv(buf, **wkw)
-    else:
-        frame.to_delimited(buf, delimiter=d, **wkw)
-    text = buf.getvalue()
-    buf.seek(0)
-    with warnings.catch_warnings():
-        warnings.simplefilter('ignore')
+    if names == 'index':
+        rkw['index_name_depth_level'] = 0
+    elif names == 'columns':
+        wkw.update(include_index_name=False, include_columns_name=True)
+        rkw['columns_name_depth_level'] = 0
+    elif names == 'blank':
+        wkw.update(include_index_name=False)
+    if cfg.get('consolidate'):
+        rkw['consolidate_blocks'] = True
+    if cfg.get('dtypes'):
+        # the dtypes of the source, by column label (flat columns only)
+        rkw['dtypes'] = {lab: frame._blocks._extract_array(column_key=j).dtype for j, lab in enumerate(frame.columns)}
+    tmp = tempfile.mkdtemp(prefix='c16_') if cfg.get('via') == 'path' else None
+    try:
+        buf = os.path.join(tmp, 'frame.txt') if tmp else io.StringIO()
         if d == ',':
-            out = sf.Frame.from_csv(buf, **rkw)
+            frame.to_csv(buf, **wkw)
         elif d == '\t':
-            out = sf.Frame.from_tsv(buf, **rkw)
+            frame.to_tsv(buf, **wkw)
         else:
-            out = sf.Frame.from_delimited(buf, delimiter=d, **rkw)
+            frame.to_delimited(buf, delimiter=d, **wkw)
+        if tmp:
+            with open(buf) as fh:
+                text = fh.read()
+        else:
+            text = buf.getvalue()
+            buf.seek(0)
+        with warnings.catch_warnings():
+            warnings.simplefilter('ignore')
+            if d == ',':
+                out = sf.Frame.from_csv(buf, **rkw)
+            elif d == '\t':
+                out = sf.Frame.from_tsv(buf, **rkw)
+            else:
+                out = sf.Frame.from_delimited(buf, delimiter=d, **rkw)
+    finally:
+        if tmp:
+            shutil.rmtree(tmp, ignore_errors=True)
     return text, out
 
 
@@ -390,6 +466,8 @@ F_TSV = 'C16-tsv-bypasses-csv-reader'
 F_EDGE = 'C16-edge-space-stripped'
 F_EMPTY = 'C16-empty-string-becomes-nan'
 F_NP2 = 'C16-numpy2-int-looking-first-cell'
+F_NONE_DC2 = 'C16-store-filter-none-hierarchical-columns'
+F_CUSTOM_NAN = 'C16-custom-nan-marker-float-column'
 _INT_RE = re.compile(r'^ *[-+]?[0-9]+ *$')
 
 
@@ -426,8 +504,13 @@ def classify(spec, cfg):
         out.append(F_TSV)
     if any((isinstance(row[0], str) and row[0][:1] == ' ') or (isinstance(row[-1], str) and row[-1][-1:] == ' ') for row in rows):
         out.append(F_EDGE)
-    if cfg['filter'] and any(isinstance(x, str) and x == '' for _, vs in spec['cols'] for x in vs):
+    if cfg['filter'] == 'none' and cfg['inc_columns'] and cfg['dc'] > 1:
+        out.append(F_NONE_DC2)
+    if cfg['filter'] is True and any(isinstance(x, str) and x == '' for _, vs in spec['cols'] for x in vs):
         out.append(F_EMPTY)
+    # a NaN marker that float() does not read makes genfromtxt type the whole float column as text
+    if cfg['filter'] == 'custom' and any(k == 'f' and any(v != v for v in vs) for k, vs in spec['cols']):
+        out.append(F_CUSTOM_NAN)
     # a text column (str / object cells, or a str level of a written index) whose first non-blank text reads as an int
     text_cols = [vs for k, vs in spec['cols'] if k in 'UO']
     if cfg['inc_index']:
@@ -436,9 +519,9 @@ def classify(spec, cfg):
             if level and isinstance(level[0], str):
                 text_cols.append(level)
     for vs in text_cols:
-        rendered = [('' if (v != v) else 'None' if v is None else v) if not isinstance(v, str) else v for v in vs]
-        if not cfg['filter']:
-            rendered = [('nan' if (not isinstance(v, str) and v != v) else r) for v, r in zip(vs, rendered)]
+        nan_text = {True: '', 'custom': CUSTOM_FILTER['from_nan']}.get(cfg['filter'], 'nan')
+        none_text = CUSTOM_FILTER['from_none'] if cfg['filter'] == 'custom' else 'None'
+        rendered = [v if isinstance(v, str) else (none_text if v is None else nan_text) for v in vs]
         nonblank = [r for r in rendered if r.strip(' ') != '']
         if nonblank and _INT_RE.match(nonblank[0]):
             out.append(F_NP2)
@@ -462,20 +545,28 @@ def delimited_case(ctx, kind, spec, cfg, layout=None, extra=None):
         text_box['text'] = buf.getvalue()
     except Exception:  # noqa
         pass
-    obs, obs_json, _ = _obs_lit(run)
+    obs, obs_json, got = _obs_lit(run)
     classes, has_tab = classify(spec, cfg)
+    py_fail = None
+    if cfg.get('names') in ('index', 'columns') and hasattr(got, 'index') and not classes:
+        want = (frame.index.name, None) if cfg['names'] == 'index' else (None, frame.columns.name)
+        if (got.index.name, got.columns.name) != want:
+            py_fail = f'names come back as {(got.index.name, got.columns.name)!r}, written {want!r}'
     tags = {'op': 'delimited', 'delim': {',': 'comma', '\t': 'tab'}.get(cfg['delim'], 'other')}
     if classes:
         tags['finding'] = classes[0]
     m_ok = not has_tab and F_SINGLE not in classes
+    no_model = F_NONE_DC2 in classes or (cfg.get('names') == 'columns' and cfg['dc'] > 1) or bool(cfg.get('dtypes'))
     c, f = _cfg(cfg), _tframe(src)
-    ctx.count(f'delim:{tags["delim"]}', f'di:{cfg["di"] if cfg["inc_index"] else 0}', f'dc:{cfg["dc"] if cfg["inc_columns"] else 0}',
-              f'filter:{"default" if cfg["filter"] else "disable"}', f'class:{classes[0] if classes else "clean"}',
+    ctx.count(f'class:{spec.get("cls", "Frame")}', f'delim:{tags["delim"]}', f'di:{cfg["di"] if cfg["inc_index"] else 0}', f'dc:{cfg["dc"] if cfg["inc_columns"] else 0}',
+              f'filter:{cfg["filter"]}', f'via:{cfg.get("via", "buffer")}', f'names:{cfg.get("names")}', f'consolidate:{bool(cfg.get("consolidate"))}', f'dtypes:{bool(cfg.get("dtypes"))}', f'class:{classes[0] if classes else "clean"}',
               *[f'kind:{k}' for k, _ in spec['cols']])
     desc = {'call': 'Frame.from_{csv,tsv,delimited}(io(Frame.to_{csv,tsv,delimited}(f)))', 'delimiter': cfg['delim'],
             'include_index': cfg['inc_index'], 'include_columns': cfg['inc_columns'],
             'index_depth': cfg['di'] if cfg['inc_index'] else 0, 'columns_depth': cfg['dc'] if cfg['inc_columns'] else 0,
-            'store_filter': 'STORE_FILTER_DEFAULT' if cfg['filter'] else 'STORE_FILTER_DISABLE',
+            'store_filter': {True: 'STORE_FILTER_DEFAULT', False: 'STORE_FILTER_DISABLE', 'none': 'None', 'custom': f'StoreFilter(**{CUSTOM_FILTER})'}[cfg['filter']],
+            'via': cfg.get('via', 'buffer'), 'names_option': cfg.get('names'), 'consolidate_blocks': bool(cfg.get('consolidate')),
+            'dtypes': 'dtypes={label: dtype of the source column}' if cfg.get('dtypes') else None,
             'frame': _jsonable(src), 'layout': zoo.layout_str(zoo.layout_of(frame)), 'file_text': text_box.get('text'),
             'observed': obs_json, 'classes': classes}
     if extra:
@@ -483,9 +574,11 @@ def delimited_case(ctx, kind, spec, cfg, layout=None, extra=None):
     # the literals are shared inside the term (let) to keep the case files small
     in_dom = f'Bool.eqb (dom c f) {lit.b(not classes)}'
     body = f'{in_dom} && obs_eqb (M_roundtrip c f) {obs}' if m_ok else in_dom
+    if cfg['filter'] in (True, 'custom'):
+        body += ' && filter_wf (c_filter c)'
     return Case(kind, desc,
-                m=f'(let c := {c} in let f := {f} in {body})',
-                s=f'obs_eqb (S_same {f}) {obs}',
+                m=None if no_model else f'(let c := {c} in let f := {f} in {body})',
+                s=f'obs_eqb (S_same {f}) {obs}', py_fail=py_fail,
                 tags=tags, nontrivial=True)
 
 
@@ -600,18 +693,19 @@ def _rcol(rng, nr, alphabet, allow_obj=True, allow_empty=True):
 
 def records_kernel_case(ctx, spec, cfg, layout):
     """Kernel level: the records Frame._to_str_records yields (private generator) against M_records."""
-    from static_frame.core.store_filter import STORE_FILTER_DEFAULT, STORE_FILTER_DISABLE
     frame = build(spec, layout)
     src = observe(frame)
-    flt = STORE_FILTER_DEFAULT if cfg['filter'] else STORE_FILTER_DISABLE
+    flt = _filter_obj(cfg['filter'])
+    opts = {'columns': dict(include_index_name=False, include_columns_name=True), 'blank': dict(include_index_name=False)}.get(cfg.get('names'), {})
     try:
-        recs = [list(r) for r in frame._to_str_records(include_index=cfg['inc_index'], include_columns=cfg['inc_columns'], store_filter=flt)]
+        recs = [list(r) for r in frame._to_str_records(include_index=cfg['inc_index'], include_columns=cfg['inc_columns'], store_filter=flt, **opts)]
         obs = lit.lst([lit.lst([_tx(x) for x in r]) for r in recs])
     except Exception as e:  # noqa
         recs, obs = {'raised': lit.err_class(e)}, '[[tx "<raised>"]]'
     ctx.count('kernel:_to_str_records')
-    if any(isinstance(v, float) and v == v and abs(v) != float('inf') and not _renderable(v) for _, vs in spec['cols'] for v in vs):
-        term = None
+    if (cfg.get('names') == 'columns' and cfg['dc'] > 1) or \
+            any(isinstance(v, float) and v == v and abs(v) != float('inf') and not _renderable(v) for _, vs in spec['cols'] for v in vs):
+        term = None     # the apex cells of the lower header rows under include_columns_name are not modelled
     else:
         term = f'list_eqb (list_eqb text_eqb) (M_records {_cfg(cfg)} {_tframe(src)}) {obs}'
     return Case('kernel:_to_str_records', {'call': 'list(f._to_str_records(include_index=, include_columns=, store_filter=))', 'frame': _jsonable(src),
@@ -636,7 +730,7 @@ def random_cases(ctx):
         nr, nc = rng.choice([1, 2, 2, 3, 3, 4]), rng.choice([1, 2, 2, 3, 3, 4])
         di, dc = rng.choice([1, 1, 2, 3]), rng.choice([1, 1, 2])
         inc_index, inc_columns = rng.random() < 0.85, rng.random() < 0.85
-        flt = rng.random() < 0.8
+        flt = rng.choice([True] * 14 + [False] * 2 + ['none', 'none', 'custom', 'custom'])
         d = rng.choice([',', ',', '\t', '\t', '|', ';', ' '])
         if not inc_index:
             di = 1
@@ -644,10 +738,22 @@ def random_cases(ctx):
             dc = 1
         index = _rlabels(rng, nr, [rng.choice('ssi') for _ in range(di)], alphabet) if inc_index else None
         columns = _rlabels(rng, nc, [rng.choice('ssi') for _ in range(dc)], alphabet) if inc_columns else None
-        cols = [_rcol(rng, nr, alphabet, allow_obj=flt) for _ in range(nc)]
-        spec = {'index': index, 'columns': columns, 'cols': cols, 'di': di, 'dc': dc}
+        cols = [_rcol(rng, nr, alphabet, allow_obj=flt in (True, 'custom')) for _ in range(nc)]
+        spec = {'index': index, 'columns': columns, 'cols': cols, 'di': di, 'dc': dc, 'cls': rng.choice(['Frame'] * 6 + ['FrameGO', 'FrameHE'])}
         cfg = {'delim': d, 'inc_index': inc_index, 'inc_columns': inc_columns, 'filter': flt, 'di': di, 'dc': dc,
-               'apex': [f'__index{k}__' for k in range(di)]}
+               'apex': [f'__index{k}__' for k in range(di)], 'via': 'path' if rng.random() < 0.08 else 'buffer', 'names': None,
+               'consolidate': rng.random() < 0.1, 'dtypes': inc_columns and dc == 1 and rng.random() < 0.08}
+        if inc_index and inc_columns and rng.random() < 0.2:
+            # the name options of the exporter and the matching *_name_depth_level of the importer
+            cfg['names'] = rng.choice(['index', 'columns', 'blank'])
+            spec['index_name'] = 'idx' if di == 1 else tuple(f'n{k}' for k in range(di))
+            spec['columns_name'] = 'cn' if dc == 1 else tuple(f'c{k}' for k in range(dc))
+            if cfg['names'] == 'index':
+                cfg['apex'] = ['idx'] if di == 1 else [f'n{k}' for k in range(di)]
+            elif cfg['names'] == 'columns':
+                cfg['apex'] = ['cn' if dc == 1 else 'c0'] + [''] * (di - 1)
+            else:
+                cfg['apex'] = [''] * di
         dtypes = [{'b': bool, 'i': np.int64, 'f': np.float64, 'U': str, 'O': object}[k] for k, _ in cols]
         layout = None
         if rng.random() < 0.5:
@@ -678,10 +784,49 @@ def scientific_float_cases(ctx):
         cfg = {'delim': rng.choice([',', '\t', '|']), 'inc_index': True, 'inc_columns': True, 'filter': rng.random() < 0.8, 'di': 1, 'dc': 1, 'apex': ['__index0__']}
         frame = build(spec)
         src = observe(frame)
+        if rng.random() < 0.35:
+            # StoreFilter with float formats wide enough to be exact for these values (17 significant digits)
+            import static_frame as sf
+            vf = sf.StoreFilter(value_format_float_positional='{:.17g}', value_format_float_scientific='{:.16e}')
+            ctx.count('sci-float:value_format')
+
+            def run(vf=vf, frame=frame, cfg=cfg):
+                buf = io.StringIO()
+                frame.to_delimited(buf, delimiter=cfg['delim'], store_filter=vf)
+                buf.seek(0)
+                with warnings.catch_warnings():
+                    warnings.simplefilter('ignore')
+                    return sf.Frame.from_delimited(buf, delimiter=cfg['delim'], index_depth=1, store_filter=vf)
+            obs, obs_json, _ = _obs_lit(run)
+            yield Case('api:delimited-value-format', {'call': "StoreFilter(value_format_float_positional='{:.17g}', value_format_float_scientific='{:.16e}') on both sides",
+                                                      'delimiter': cfg['delim'], 'frame': _jsonable(src), 'observed': obs_json},
+                       s=f'obs_eqb (Ok {_tframe(src)}) {obs}', tags={'op': 'delimited', 'delim': 'any'})
+            continue
         obs, obs_json, _ = _obs_lit(lambda: _io_roundtrip(frame, cfg)[1])
         ctx.count('sci-float')
         yield Case('api:delimited-scientific-float', {'call': 'from_delimited(io(to_delimited(f)))', 'delimiter': cfg['delim'], 'frame': _jsonable(src), 'observed': obs_json},
                    s=f'obs_eqb (Ok {_tframe(src)}) {obs}', tags={'op': 'delimited', 'delim': 'any'})
+
+
+def zero_row_cases(ctx):
+    """A table of column labels only (no data line): labels come back, there are no rows (dtypes are not determined)."""
+    rng = ctx.rng
+    import static_frame as sf
+    for it in range(ctx.n(12, 120)):
+        nc, dc = rng.choice([1, 2, 3]), rng.choice([1, 1, 2])
+        inc_index = it % 3 != 0
+        if not inc_index and nc == 1:
+            nc = 2
+        columns = _rlabels(rng, nc, [rng.choice('si') for _ in range(dc)], ['a', 'b', '1', '-'])
+        cols_index = _index(columns, dc)
+        frame = sf.Frame(columns=cols_index, index=sf.Index(()) if inc_index else None)
+        cfg = {'delim': rng.choice([',', '\t', '|']), 'inc_index': inc_index, 'inc_columns': True, 'filter': True, 'di': 1, 'dc': dc, 'apex': ['__index0__']}
+        src = {'index': [], 'columns': columns, 'cols': [('f', []) for _ in range(nc)]}
+        obs, obs_json, _ = _obs_lit(lambda: _io_roundtrip(frame, cfg)[1])
+        ctx.count('zero-rows')
+        yield Case('api:delimited-zero-rows', {'call': 'from_delimited(io(to_delimited(Frame(columns=..., index=[]))))', 'delimiter': cfg['delim'], 'include_index': inc_index,
+                                               'columns': _jsonable(columns), 'observed': obs_json},
+                   s=f'obs_sim (Ok {_tframe(src)}) {obs}', tags={'op': 'delimited', 'delim': 'any'})
 
 
 def witness_cases(ctx):
@@ -698,6 +843,21 @@ def witness_cases(ctx):
                          dict(base, delim=',', inc_index=False))
     yield delimited_case(ctx, 'api:delimited-witness', {'index': [['x'], ['y']], 'columns': two, 'cols': [('U', ['a', 'b']), ('U', ['', 'c'])], 'di': 1, 'dc': 1},
                          dict(base, delim=','))
+    yield delimited_case(ctx, 'api:delimited-witness', {'index': [['x']], 'columns': [['p', 1], ['p', 2]], 'cols': [('U', ['a']), ('U', ['b'])], 'di': 1, 'dc': 2},
+                         dict(base, delim=',', filter='none', dc=2))
+    yield delimited_case(ctx, 'api:delimited-witness', {'index': [['x'], ['y']], 'columns': two, 'cols': [('f', [1.5, float('nan')]), ('U', ['a', 'b'])], 'di': 1, 'dc': 1},
+                         dict(base, delim=',', filter='custom'))
+    # regression inputs of the option routes: file path, names in the apex, store_filter=None, custom markers in an object column
+    named = {'index': [['x'], ['y']], 'columns': two, 'cols': [('i', [1, 2]), ('U', ['a', 'b'])], 'di': 1, 'dc': 1, 'index_name': 'idx', 'columns_name': 'cn'}
+    yield delimited_case(ctx, 'api:delimited-options', named, dict(base, delim=',', names='index', apex=['idx']))
+    yield delimited_case(ctx, 'api:delimited-options', named, dict(base, delim='\t', names='columns', apex=['cn']))
+    yield delimited_case(ctx, 'api:delimited-options', named, dict(base, delim='|', names='blank', apex=['']))
+    yield delimited_case(ctx, 'api:delimited-options', dict(named, index_name=None, columns_name=None), dict(base, delim=',', via='path'))
+    yield delimited_case(ctx, 'api:delimited-options', dict(named, index_name=None, columns_name=None), dict(base, delim=',', consolidate=True))
+    yield delimited_case(ctx, 'api:delimited-options', dict(named, index_name=None, columns_name=None), dict(base, delim='|', dtypes=True))
+    yield delimited_case(ctx, 'api:delimited-options', dict(named, index_name=None, columns_name=None), dict(base, delim='\t', via='path', filter='none'))
+    yield delimited_case(ctx, 'api:delimited-options', {'index': [['x'], ['y'], ['z']], 'columns': two, 'cols': [('O', ['a', None, float('nan')]), ('f', [1.5, float('inf'), -0.25])], 'di': 1, 'dc': 1},
+                         dict(base, delim=',', filter='custom'))
 
 
 
@@ -755,14 +915,15 @@ def structural_cases(ctx):
         {'index': [['x']], 'columns': [['a'], ['b']], 'cols': [('i', [2 ** 63 - 1]), ('f', [1.5])], 'di': 1, 'dc': 1},
         {'index': [['x']], 'columns': [['a', 1], ['a', 2]], 'cols': [('i', [1]), ('i', [2])], 'di': 1, 'dc': 2},
     ]
-    for it in range(ctx.n(60, 1000)):
+    for it in range(ctx.n(45, 800)):
         alphabet = ALPHABET if rng.random() < 0.5 else ['a', '1', ' ', '-', 'b', '.']
         spec = fixed[it] if it < len(fixed) else _struct_spec(rng, alphabet)
         arrays = [_array(*c) for c in spec['cols']]
         layout = rng.choice(list(zoo.layouts_for([a.dtype for a in arrays])))
-        frame = build(dict(spec, index_name=None), layout)
+        cls = rng.choice(['Frame'] * 4 + ['FrameGO', 'FrameHE'])
+        frame = build(dict(spec, index_name=None, cls=cls), layout)
         frame = frame.rename('fr' if rng.random() < 0.5 else None)
-        yield from _struct_roundtrips(ctx, frame, spec, zoo.layout_str(layout), 'Frame built in one step')
+        yield from _struct_roundtrips(ctx, frame, spec, zoo.layout_str(layout), f'{cls} built in one step')
     # receivers that are FrameGO grown column by column with same-kind columns of increasing width: TypeBlocks.append
     # maintains the cached row dtype incrementally, and every row-wise export goes through it
     grown_fixed = [
@@ -771,7 +932,7 @@ def structural_cases(ctx):
         [('f', [1.5, -2.0], 'float32'), ('f', [0.1, 1e-9], 'float64')],
         [('U', ['a', 'b'], '<U1'), ('U', ['a b', 'ab'], '<U3'), ('U', ['abcde', ''], '<U5')],
     ]
-    for it in range(ctx.n(40, 600)):
+    for it in range(ctx.n(30, 500)):
         nr = 2 if it < len(grown_fixed) else rng.choice([1, 2, 3])
         cols = grown_fixed[it] if it < len(grown_fixed) else _grown_cols(rng, nr)
         di = rng.choice([1, 1, 2])
@@ -813,6 +974,26 @@ def _grown_cols(rng, nr):
                 vs = [rng.choice([1.5, -0.25, rng.randint(-999, 999) / 8] + ([0.1, 1e-9, 1 / 3] if w == 'float64' else [])) for _ in range(nr)]
             out.append((kind, vs, w))
     return out
+
+
+def _field_names(columns, dc):
+    return dc == 1 and all(isinstance(lab[0], str) and lab[0].isidentifier() and not keyword.iskeyword(lab[0]) and not lab[0].startswith('_')
+                           for lab in columns)
+
+
+def _dataclass_rows(columns):
+    import dataclasses
+    return dataclasses.make_dataclass('Row', [lab[0] for lab in columns])
+
+
+def _rehier(frame, di, dc):
+    """from_dict_records_items has no index / columns constructor arguments: tuples of a hierarchical axis are made hierarchical again."""
+    import static_frame as sf
+    if di > 1:
+        frame = frame.relabel(index=sf.IndexHierarchy.from_labels(frame.index.values))
+    if dc > 1:
+        frame = frame.relabel(columns=sf.IndexHierarchy.from_labels(frame.columns.values))
+    return frame
 
 
 def _struct_roundtrips(ctx, frame, spec, layout, receiver, grown=False):
@@ -888,6 +1069,61 @@ def _struct_roundtrips(ctx, frame, spec, layout, receiver, grown=False):
     ctx.count('struct:items')
     yield Case('api:items', dict(base, call='Frame.from_items(f.items(), index=f.index)', observed=oj),
                s=f'obs_sim (Ok {f}) {obs}', tags=tags)
+    # further import routes of the same exports (all: the rebuilt Frame equals the original cell by cell)
+    routes = [
+        ('from_items-arrays', 'Frame.from_items(zip(f.columns, f.iter_array(axis=0)), index=f.index)',
+         lambda: sf.Frame.from_items(zip(frame.columns, frame.iter_array(axis=0)), index=frame.index, columns_constructor=cc), tags),
+        ('from_dict', 'Frame.from_dict({k: v.values for k, v in f.items()}, index=f.index)',
+         lambda: sf.Frame.from_dict({k: v.values for k, v in frame.items()}, index=frame.index, columns_constructor=cc), tags),
+        ('from_fields', 'Frame.from_fields(f.iter_array(axis=0), columns=f.columns, index=f.index)',
+         lambda: sf.Frame.from_fields(frame.iter_array(axis=0), columns=frame.columns, index=frame.index), tags),
+        ('from_dict_records_items', 'Frame.from_dict_records_items((i, dict(r)) for i, r in f.to_pairs(1))',
+         lambda: _rehier(sf.Frame.from_dict_records_items((i, dict(r)) for i, r in p1), di, dc), row_tags),
+        ('from_records-ndarray', 'Frame.from_records(f.values, index=f.index, columns=f.columns)',
+         lambda: sf.Frame.from_records(frame.values, index=frame.index, columns=frame.columns), row_tags),
+        ('from_records-namedtuple', 'Frame.from_records(list(f.iter_tuple(axis=1)), index=f.index, columns=f.columns)',
+         lambda: sf.Frame.from_records(list(frame.iter_tuple(axis=1)), index=frame.index, columns=frame.columns), row_tags),
+        ('from_records-dict-view', 'Frame.from_records({i: tuple(v for _, v in r) for i, r in f.to_pairs(1)}.values(), index=f.index, columns=f.columns)',
+         lambda: sf.Frame.from_records({i: tuple(v for _, v in r) for i, r in p1}.values(), index=frame.index, columns=frame.columns), row_tags),
+    ]
+    src_dtypes = [frame._blocks._extract_array(column_key=j).dtype for j in range(frame.shape[1])]
+    routes += [
+        ('from_records-consolidate', 'Frame.from_records(rows, index=f.index, columns=f.columns, consolidate_blocks=True)',
+         lambda: sf.Frame.from_records(rows_t, index=frame.index, columns=frame.columns, consolidate_blocks=True), row_tags),
+        ('from_items-consolidate', 'Frame.from_items(zip(f.columns, f.iter_array(axis=0)), index=f.index, consolidate_blocks=True)',
+         lambda: sf.Frame.from_items(zip(frame.columns, frame.iter_array(axis=0)), index=frame.index, columns_constructor=cc, consolidate_blocks=True), tags),
+        ('from_dict_records-consolidate', 'Frame.from_dict_records([dict(r) for _, r in f.to_pairs(1)], index=f.index, consolidate_blocks=True)',
+         lambda: sf.Frame.from_dict_records([dict(r) for _, r in p1], index=frame.index, columns_constructor=cc, consolidate_blocks=True), row_tags),
+        ('from_records-dtypes', 'Frame.from_records(rows, index=f.index, columns=f.columns, dtypes=[dtypes of f])',
+         lambda: sf.Frame.from_records(rows_t, index=frame.index, columns=frame.columns, dtypes=src_dtypes), row_tags),
+        ('from_items-dtypes', 'Frame.from_items(((k, [v for _, v in col]) for k, col in f.to_pairs(0)), index=f.index, dtypes=[dtypes of f])',
+         lambda: sf.Frame.from_items(((k, [v for _, v in col]) for k, col in p0), index=frame.index, columns_constructor=cc, dtypes=src_dtypes), tags),
+        ('from_records-dataclass', 'Frame.from_records([DC(*row) for row in rows], index=f.index)  (DC: a dataclass with the column labels as fields)',
+         lambda: sf.Frame.from_records([_dataclass_rows(src['columns'])(*r) for r in rows_t], index=frame.index), row_tags),
+    ]
+    rows_t = list(frame.iter_tuple(axis=1, constructor=tuple))
+    for name, call, fn, tg in routes:
+        if name == 'from_records-dataclass' and not _field_names(src['columns'], dc):
+            continue
+        if name == 'from_records-namedtuple' and not _field_names(src['columns'], dc):
+            continue        # iter_tuple asks for constructor=tuple unless every column label is a field name (api:records covers that)
+        obs, oj, _ = _obs_lit(fn)
+        ctx.count(f'struct:{name}')
+        yield Case(f'api:{name}', dict(base, call=call, observed=oj), s=f'obs_sim (Ok {f}) {obs}', tags=tg)
+    # one column as a Series: to_pairs -> from_items, pickle, deepcopy
+    col = frame.iloc[:, 0].rename('sr')
+    sr = sf.Series.from_items(col.to_pairs(), index_constructor=ic, name='sr')
+    why = []
+    if not sr.equals(col, compare_name=True):
+        why.append('Series.from_items(s.to_pairs()) differs from s')
+    for how, g in (('pickle', pickle.loads(pickle.dumps(col))), ('deepcopy', copy.deepcopy(col))):
+        if not g.equals(col, compare_name=True, compare_dtype=True, compare_class=True):
+            why.append(f'{how} of the Series differs')
+        if g.values.flags.writeable or g.index.values.flags.writeable or g.index.positions.flags.writeable:
+            why.append(f'{how} of the Series has a writeable array')
+    ctx.count('struct:series')
+    yield Case('api:series-pairs-pickle', dict(base, call='s = f.iloc[:, 0]; Series.from_items(s.to_pairs()); pickle / deepcopy of s; equality, names, dtype, flags', observed={'why': why}),
+               py_fail='; '.join(why) or None, tags=tags)
     # pickle / deepcopy: equal Frame, same dtypes, names, class, read-only arrays
     for how, fn in (('pickle', lambda: pickle.loads(pickle.dumps(frame))), ('deepcopy', lambda: copy.deepcopy(frame))):
         try:
@@ -1064,5 +1300,6 @@ def cases(ctx):
     yield from fixed_frame_cases(ctx)
     yield from random_cases(ctx)
     yield from scientific_float_cases(ctx)
+    yield from zero_row_cases(ctx)
     yield from structural_cases(ctx)
     yield from oracle_cases(ctx)
